@@ -166,6 +166,20 @@ def family_order(tier, seed, n=None):
         ops = [{"op": "construct", "o": "o1"},
                {"op": "explore", "call": mcall(), "paths": ["o1.a", "o1.b"], "uniform": ["o1.a"], "max_paths": mp}]
         out.append({"id": "O20/signed/%d" % t, "world": world, "ops": ops, "tags": []})
+    # (d) the earlier variable is an enum field (its enumerators fill the inferred range), also as the LATER variable
+    for t in range(2 if tier == "quick" else 6):
+        rnd = random.Random(2050 + t)
+        vals = [[0, 1], [0, 1, 2], [0, 1, 2, 3], [1, 2]][t % 4]
+        fe = {"name": "e", "kind": "enum", "values": vals, "rand": True, "init": vals[0]}
+        fields = [fe, fld("b", 2, False)]
+        first = "e" if t % 3 != 2 else "b"
+        second = "b" if first == "e" else "e"
+        body = [{"k": "imp", "c": B("eq", F(first), lit(vals[0] if first == "e" else 0)), "body": [E(B("eq", F(second), lit(vals[-1] if second == "e" else rnd.randrange(4))))]},
+                {"k": "order", "a": [first], "b": [second]}]
+        world = one(fields, [blk("c1", body)])
+        ops = [{"op": "construct", "o": "o1"}, {"op": "probe", "call": wcall(), "paths": ["o1.e", "o1.b"]},
+               {"op": "explore", "call": mcall(), "paths": ["o1.e", "o1.b"], "uniform": ["o1." + first], "max_paths": mp}]
+        out.append({"id": "O20/enum/%d" % t, "world": world, "ops": ops, "tags": []})
     # program pairs that agree on Feasible(a) and differ only in how many b accompany each a
     for t in range(2 if tier == "quick" else 8):
         rnd = random.Random(2021 + t)
